@@ -346,6 +346,12 @@ func Run(c *hx.Ctx) {
 		muxEmit(c, uint32(mc), uint32(mr), ops, obs, w)
 		return
 	}
+	if len(c.Args) == 3 && c.Args[0] == "h2p" {
+		mr, _ := strconv.Atoi(c.Args[1])
+		ops, obs, w := h2RunOps(c, uint32(mr), scripted(strings.Split(c.Args[2], ",")))
+		h2Emit(c, "C09", uint32(mr), ops, obs, w)
+		return
+	}
 	if len(c.Args) == 4 {
 		mc, _ := strconv.Atoi(c.Args[1])
 		mr, _ := strconv.Atoi(c.Args[2])
@@ -368,6 +374,19 @@ func Run(c *hx.Ctx) {
 				runScript(c, t[2], uint32(mc), uint32(mr), strings.Split(t[5], ","))
 				c.Count("corpus")
 			}
+			if len(t) >= 4 && t[0] == "C09" && t[1] == "h2p" {
+				mr, _ := strconv.Atoi(t[2])
+				ops, obs, w := h2RunOps(c, uint32(mr), scripted(strings.Split(t[3], ",")))
+				h2Emit(c, "C09", uint32(mr), ops, obs, w)
+				c.Count("corpus")
+			}
+			if len(t) >= 5 && t[0] == "C09" && t[1] == "mux" {
+				mc, _ := strconv.Atoi(t[2])
+				mr, _ := strconv.Atoi(t[3])
+				ops, obs, w := muxRunOps(c, uint32(mc), uint32(mr), scripted(strings.Split(t[4], ",")))
+				muxEmit(c, uint32(mc), uint32(mr), ops, obs, w)
+				c.Count("corpus")
+			}
 		}
 	}
 	kinds := []string{"h1", "pp"}
@@ -385,8 +404,10 @@ func Run(c *hx.Ctx) {
 			}
 		}
 	}
-	// the multiplex pool (mux.go)
+	// the multiplex pool (mux.go), one-way requests included
 	runMux(c)
+	// the HTTP/2 pool against the scripted HTTP/2 upstream (h2p.go)
+	RunH2(c, "C09", c.N(220, 2500))
 	// overlapping ResetStream / DestroyStream calls on one real BaseStream, every interleaving (once.go)
 	runOnce(c)
 	// concurrent phase (support): books equal the truth again once concurrent leases, resets and closes have settled
